@@ -17,6 +17,7 @@ RULE = (
     "iteration yields the same prefix and raises the same exception type. Purity: observe(rec) identical before and "
     "after match, match twice gives the same value, and one reused selector object over the sequence, its reverse "
     "and a generated permutation gives the per-record results of fresh selectors. Non-trivial = 0 < kept < n."
+    " Also: reader URLs with query options, grouped records of two compositions, Type matcher expressions."
 )
 ASSUMPTIONS = [
     "the selector semantics themselves are C07/C08; here only reader-filter equivalence and purity are judged",
